@@ -43,7 +43,8 @@ def victim_of(api):
 
 
 def make_body(scn):
-    api, loss, timing, ctimeout = scn
+    api, loss, timing, ctimeout = scn[:4]
+    ncall = scn[4] if len(scn) > 4 else 1
 
     def body(s):
         handshake_only = api in ("auth_password", "start_client")
@@ -148,17 +149,28 @@ def make_body(scn):
             out["t_loss"] = S.now()
 
         th = vthreading.Thread(target=call)
+        # further concurrent callers of the same API (every one of them has to be released)
+        extra = [vthreading.Thread(target=call) for _ in range(ncall - 1)]
+
+        class _All:
+            def is_alive(self):
+                return th.is_alive() or any(t.is_alive() for t in extra)
+        everyone = _All()
         if timing == "before":
             th.start()
+            for t in extra:
+                t.start()
             s.quiesce()
             s.advance(0.5)
             s.quiesce()
-            out["was_blocked"] = th.is_alive()
+            out["was_blocked"] = th.is_alive() and all(t.is_alive() for t in extra)
             lose()
         elif timing == "racing":
             lt = vthreading.Thread(target=lose)
             s.branching = True
             th.start()
+            for t in extra:
+                t.start()
             lt.start()
             lt.join()
             s.branching = False
@@ -169,6 +181,8 @@ def make_body(scn):
             s.quiesce()
             out["t_loss"] = S.now()
             th.start()
+            for t in extra:
+                t.start()
         s.quiesce()
         # let the system react: poll loops need virtual time to pass
         limit = GRACE
@@ -178,22 +192,24 @@ def make_body(scn):
             limit = max(limit, ctimeout + 0.5)
         s.advance(limit)
         s.quiesce()
-        out["blocked_after_grace"] = th.is_alive()
+        out["blocked_after_grace"] = everyone.is_alive()
         out["active_after"] = vt.is_active()
-        if th.is_alive():
+        if everyone.is_alive():
             # keep going to find out whether it *ever* returns (a deadlock is reported by the scheduler)
             s.advance(60.0)
             s.quiesce()
-            out["blocked_after_60s"] = th.is_alive()
-            if th.is_alive():
+            out["blocked_after_60s"] = everyone.is_alive()
+            if everyone.is_alive():
                 # tear down: never leave a blocked thread to the next execution
                 import traceback
                 dead = [(t.name, "".join(traceback.format_exception(t.obj))[-600:]) for t in s.threads
                         if isinstance(t.obj, BaseException)]
-                raise S.Deadlock("%s still blocked 60 virtual seconds after %s; victim active=%s alive=%s; "
+                raise S.Deadlock("%s (%d caller(s)) still blocked 60 virtual seconds after %s; victim active=%s alive=%s; "
                                  "threads that died with an exception: %r"
-                                 % (api, loss, vt.active, vt.is_alive(), dead))
+                                 % (api, ncall, loss, vt.active, vt.is_alive(), dead))
         th.join()
+        for t in extra:
+            t.join()
         try:
             p.close()
         except Exception:  # noqa
@@ -204,7 +220,7 @@ def make_body(scn):
 
 
 def judge(scn, ex):
-    api, loss, timing, ctimeout = scn
+    api, loss, timing, ctimeout = scn[:4]
     if ex.outcome in ("deadlock", "livelock"):
         return "call-never-returns", {"err": repr(ex.error)[:200]}
     if ex.outcome != "ok":
@@ -236,6 +252,11 @@ def scenarios(tier):
                     if tier == "quick" and ct == 3.0 and timing != "before":
                         continue
                     out.append((api, loss, timing, ct))
+            # two concurrent callers of the same blocking API on the same channel / transport
+            if api in ("recv", "recv_stderr", "send_zero_window", "sendall_zero_window", "recv_exit_status",
+                       "accept_none", "open_session"):
+                for timing in (("before",) if tier == "quick" else ("before", "racing")):
+                    out.append((api, loss, timing, None, 2))
     return out
 
 
@@ -254,7 +275,8 @@ def run_items(items, acc):
                 if o.get("was_blocked") or scn[2] != "before":
                     acc.nt((scn, o.get("kind"), o.get("exc")))
             if v is not None:
-                acc.violation("%s:%s:%s:%s" % (v[0], scn[0], scn[1], "after-loss" if scn[2] == "after" else "blocked-or-racing"),
+                acc.violation("%s:%s:%s:%s%s" % (v[0], scn[0], scn[1], "after-loss" if scn[2] == "after" else "blocked-or-racing",
+                                                 ":two-callers" if len(scn) > 4 and scn[4] > 1 else ""),
                               {"scn": scn, "why": v[1], "choices": ex.choices,
                                "observed": ex.value if ex.outcome == "ok" else None},
                               {"scn": scn, "choices": ex.choices, "bound": bound})
@@ -265,7 +287,7 @@ def run_items(items, acc):
         if res.capped:
             acc.note("cap 1500 hit %r" % (scn,))
         if len(acc.samples) < 3 and seen:
-            acc.sample({"scenario": dict(zip(("api", "loss", "timing", "channel_timeout"), scn)),
+            acc.sample({"scenario": dict(zip(("api", "loss", "timing", "channel_timeout", "callers"), scn)),
                         "schedules": res.executions, "outcomes(kind,exception,was_blocked)": sorted(map(list, seen), key=repr)})
 
 
